@@ -10,13 +10,26 @@ def run(tier):
         "one configuration string symbolic per query (SKI, identifier, brand, model, type, serial in turn), all 256 byte values, the others fixed; UTF-8 validity is the exact utf8.ValidString automaton",
         "fake api.MdnsProviderInterface captures (name, port, txt); the browser side is a second MdnsManager fed with parseTxt of the captured record",
         "history part (H_C16_Seq): every sequence of up to N operations from {announce, unannounce, set auto-accept true/false} with a fixed configuration; after each operation the record live at the provider must read back as the current auto-accept flag and the configured data",
+        "closed part (H_C16_Fixed): 10 concrete values (blanks at either end, a blank at the truncation boundary, '=' ':' ',' and a tab inside, 32/33/37 bytes, non-ASCII) in each of the six configuration strings; concrete execution of the real code by the engine, labelled as such",
         "QR oracle: the text must equal the reference printer refQR (harness/mdns/c16.go), which strips ';' from every value and therefore parses back unambiguously under the SHIP;KEY:value;..ENDSHIP; grammar",
     ]
     c.bounds = {"truncation_input_len_max": 35, "roundtrip_string_len_max": 6, "qr_string_len_max": 6, "categories_max": 2,
                 "category_value_max": 99, "announce_unannounce_autoaccept_history_len": 5 if tier == "thorough" else 4, "port": "0..65535", "loop_unwind": 80}
-    res, meta = lib.run_engine("mdns", ["H_C16_Shorten", "H_C16_Txt", "H_C16_Cats", "H_C16_QR", "H_C16_Seq4" if tier != "thorough" else "H_C16_Seq5"], sched="seq", solver="z3-new", maxstr=n,
-                               workers=8, timeout_ms=300000, loop=80, extra=["-bvstr"])
+    # closed and history parts first (cheap, concrete or nearly so), then the symbolic string queries under their own budget
+    seq = "H_C16_Seq4" if tier != "thorough" else "H_C16_Seq5"
+    resf, metaf = lib.run_engine("mdns", ["H_C16_Fixed"], sched="seq", solver="z3-new", maxstr=n, workers=8, timeout_ms=60000, loop=80,
+                                 extra=["-bvstr"], deadline=300)
+    c.add_run("mdns-closed", resf, metaf)
+    res0, meta0 = lib.run_engine("mdns", [seq], sched="seq", solver="z3-new", maxstr=n, workers=8, timeout_ms=60000, loop=80,
+                                 extra=["-bvstr"], deadline=600)
+    c.add_run("mdns-history", res0, meta0)
+    res0 = dict(res0 or {})
+    res0.update(resf or {})
+    res, meta = lib.run_engine("mdns", ["H_C16_Shorten", "H_C16_Txt", "H_C16_Cats", "H_C16_QR"], sched="seq", solver="z3-new", maxstr=n,
+                               workers=8, timeout_ms=60000, loop=80, extra=["-bvstr"], deadline=600 if tier != "thorough" else 3600)
     c.add_run("mdns-strings", res, meta)
+    res = dict(res or {})
+    res.update(res0 or {})
     for e, r in (res or {}).items():
         if not r["covers"].get("c16.end"):
             c.covers_missing.append(e + ":c16.end")
